@@ -36,6 +36,9 @@ structure Cfg where
   maxActive : Nat := 256
   allTypes : Int := 2147483647
   bufMax : Int := 1048576
+  pTiming : Nat := 900             -- `min_timing_message_period`, `TRAFFIC_INTERVAL`, `INFO_INTERVAL` in milliseconds (read
+  pTraffic : Nat := 1000           -- from the manager object at run time: no property fixes their values)
+  pInfo : Nat := 5000
   logLevel : Nat := 100            -- a log call of level `l` is forwarded iff `l ≥ logLevel`
   timing : Bool := true            -- `send_msg_timing`
   mmPid : Int := 4242
@@ -118,6 +121,14 @@ inductive FailMode where
   | hdr | pay
 deriving Repr, DecidableEq, Inhabited
 
+/-- ghost history of the statistics (never read by the model): one mark per frame `forward_message` handles, one per
+    reporting tick -/
+inductive Mark where
+  | fwd (t : Int) (stats : Bool)   -- `forward_message` handled a frame of type `t`; `stats` = inside a statistics send
+  | timingTick                      -- a TIMING_MESSAGE report was made (`message_counts` starts afresh)
+  | trafficTick                     -- a MESSAGE_TRAFFIC interval was reported (`traffic_counter` starts afresh)
+deriving Repr, DecidableEq, Inhabited
+
 structure State where
   mods : List Module := []                  -- `self.modules` in dict order; uid 0 = the manager's own entry
   idx : List (Int × List Nat) := []         -- `self.subscriptions`: type ↦ ordered set of uids
@@ -137,6 +148,7 @@ structure State where
   now : Nat := 0                            -- ms
   out : List Ev := []                       -- newest LAST
   crashed : Option String := none
+  hist : List Mark := []                    -- ghost: frames handled by `forward_message` and report ticks, newest FIRST
 deriving Repr, Inhabited
 
 def bufLen : Nat := 48
@@ -274,8 +286,9 @@ def recipients (cfg : Cfg) (s : State) (t : Int) : List Nat :=
   cfg.order (idxGet s.idx t) ++ cfg.order (idxGet s.idx cfg.allTypes)
 
 def countMsg (cfg : Cfg) (s : State) (t : Int) : State :=
-  if s.inTraffic then s
-  else { s with counts := if cfg.timing then ctrInc s.counts t else s.counts, traffic := ctrInc s.traffic t }
+  if s.inTraffic then { s with hist := .fwd t true :: s.hist }
+  else { s with counts := if cfg.timing then ctrInc s.counts t else s.counts, traffic := ctrInc s.traffic t,
+                hist := .fwd t false :: s.hist }
 
 /-- `forward_message` -/
 def forward (cfg : Cfg) : Nat → State → Frame → State
@@ -570,7 +583,7 @@ def sendTiming (cfg : Cfg) (s : State) : State :=
   let body := Body.timing (timingEntries cfg s.counts) (pidEntries s.mods)
   let s := { s with counts := [], inTraffic := true }
   let s := fwdTop cfg s (mgrFrame cfg.mtTiming 0 cfg.szTiming body)
-  { s with inTraffic := false }
+  { s with inTraffic := false, hist := .timingTick :: s.hist }
 
 /-- split the counter into full chunks and the rest -/
 def chunks (n : Nat) (l : List (Int × Nat)) : Nat → List (List (Int × Nat))
@@ -596,7 +609,8 @@ def sendTraffic (cfg : Cfg) (s : State) : State :=
   let s := { s with inTraffic := true }
   let s := logAt cfg (fwdTop cfg) 10 s                 -- `logger.debug("MESSAGE_TRAFFIC")`, inside the statistics context
   let s := (trafficFrames cfg s.trafficSeq s.traffic).foldl (fwdTop cfg) s
-  { s with inTraffic := false, traffic := [], tTraffic := s.now, trafficSeq := s.trafficSeq + 1 }
+  { s with inTraffic := false, traffic := [], tTraffic := s.now, trafficSeq := s.trafficSeq + 1,
+           hist := .trafficTick :: s.hist }
 
 def trimZeros (l : List Int) : List Int := (l.reverse.dropWhile (· == 0)).reverse
 
@@ -654,9 +668,9 @@ def ioStep (cfg : Cfg) (s : State) (accept : Bool) (writable : List Nat) (reads 
 
 /-- the periodic messages at the end of every round -/
 def ticks (cfg : Cfg) (s : State) : State :=
-  let s := if cfg.timing && s.now - s.tTiming > 900 then { sendTiming cfg s with tTiming := s.now } else s
-  let s := if s.now - s.tTraffic > 1000 then sendTraffic cfg s else s
-  if s.now - s.tInfo > 5000 then sendActive cfg s else s
+  let s := if cfg.timing && s.now - s.tTiming > cfg.pTiming then { sendTiming cfg s with tTiming := s.now } else s
+  let s := if s.now - s.tTraffic > cfg.pTraffic then sendTraffic cfg s else s
+  if s.now - s.tInfo > cfg.pInfo then sendActive cfg s else s
 
 def step (cfg : Cfg) (s : State) (r : Round) : State :=
   if s.crashed.isSome then s else
